@@ -35,7 +35,7 @@ SPEC = dict(
     id="C03",
     group="scan",
     props_file="C03.v",
-    more_props=[("C03Source.v", "LMScan.C03Source")],
+    more_props=[("C03Source.v", "LMScan.C03Source"), ("C03Total.v", "LMScan.C03Total")],
     translate=scan_skel.translate,
     module="LMScan.C03",
     harness_bin="scan",
